@@ -274,7 +274,13 @@ func appAuthDriver(a *Args) {
 	for i, c := range cases.Auth {
 		ensurePending(bA)
 		ensurePending(bB)
-		identity := map[string]string{"absent": "", "wrong": "stranger@example.com", "right": bA.BackendUser, "other-backends-agent": bB.BackendUser, "end-user": bA.EndUser}[c.Identity]
+		identity := map[string]string{"absent": "", "wrong": "stranger@example.com", "right": bA.BackendUser, "other-backends-agent": bB.BackendUser, "end-user": bA.EndUser,
+			"near-prefix":     []string{"s", "user", "service", "account:", "t"}[i%5] + bA.BackendUser,
+			"near-iam-prefix": []string{"serviceAccount:", "user:"}[i%2] + bA.BackendUser,
+			"near-case":       strings.ToUpper(bA.BackendUser[:1]) + bA.BackendUser[1:],
+			"near-suffix":     bA.BackendUser + []string{".", "x", ".x"}[i%3], // (a trailing space would not survive the ticket header)
+			"near-domain":     strings.Split(bA.BackendUser, "@")[0] + "@example.org",
+			"near-subaddress": strings.Replace(bA.BackendUser, "@", "+x@", 1)}[c.Identity]
 		named := map[string]string{"own": bA.ID, "other": bB.ID, "unknown": "no-such-backend", "missing": ""}[c.Backend]
 		rid := map[string]string{"own": pend[bA.ID], "other": pend[bB.ID], "unknown": "no-such-request", "none": ""}[c.Rid]
 		// relation of the request ID to the NAMED backend
